@@ -514,17 +514,9 @@ func c17Bubble(tp *core.Tape, e *core.Env) (hist []string) {
 		}
 	}
 	if len(w.Translated) > 0 && !e.Failed() {
-		last := w.Translated[len(w.Translated)-1]
-		for _, t := range w.Translated {
-			tt := t
-			alone("forward", func() interface{} { w.EX.UpdateTargets(tt); return nil })
-		}
-		want := map[uint64]string{}
-		for j, ts := range last {
-			for _, t := range ts {
-				want[t.ShardTarget.Hash] = j + "/" + AddrOf(t)
-			}
-		}
+		// forward the translations one by one; after each forward ask for every target seen so
+		// far (asking marks a target as being explored): the explorer must know exactly the
+		// targets of the update that was forwarded last
 		all := map[uint64]string{}
 		for _, t := range w.Translated {
 			for j, ts := range t {
@@ -533,16 +525,31 @@ func c17Bubble(tp *core.Tape, e *core.Env) (hist []string) {
 				}
 			}
 		}
-		for _, h := range sidecarsim.SortedHashes(all) {
-			hh := h
-			r := alone("Explore.Get", func() interface{} { return w.EX.Get(hh) != nil }).(bool)
-			_, exp := want[h]
-			if r != exp {
-				cls := "stale-target"
-				if exp {
-					cls = "missing-target"
+		n := len(w.Translated)
+		first := 0
+		if n > 4 {
+			first = n - 4
+		}
+		for ti := first; ti < n && !e.Failed(); ti++ {
+			tt := w.Translated[ti]
+			alone("forward", func() interface{} { w.EX.UpdateTargets(tt); return nil })
+			want := map[uint64]bool{}
+			for _, ts := range tt {
+				for _, t := range ts {
+					want[t.ShardTarget.Hash] = true
 				}
-				e.Violate("explorer-tracking", cls, "after forwarding the latest update the explorer knows target %s = %v, expected %v", all[h], r, exp)
+			}
+			for _, h := range sidecarsim.SortedHashes(all) {
+				hh := h
+				r := alone("Explore.Get", func() interface{} { return w.EX.Get(hh) != nil }).(bool)
+				if r != want[h] {
+					cls := "stale-target"
+					if want[h] {
+						cls = "missing-target"
+					}
+					e.Violate("explorer-tracking", cls, "after forwarding update #%d the explorer knows target %s = %v, expected %v", ti+1, all[h], r, want[h])
+					break
+				}
 			}
 		}
 		e.Probe("explorer_tracking_checked")
